@@ -4,8 +4,9 @@
 # repository's own suite still passes with it, the demonstration fails with it and passes without.
 set -u
 D="$(readlink -f "$1")"
+SLOT="${SLOT:-0}"
 WT=/tmp/vs-wt-$$
-export CARGO_TARGET_DIR=/tmp/vs-target CARGO_NET_OFFLINE=true
+export CARGO_TARGET_DIR=/tmp/vs-target-$SLOT CARGO_NET_OFFLINE=true
 crate=$(python3 -c "import json;print(json.load(open('$D/meta.json'))['demo_crate'])")
 cdir=$(python3 -c "import json;print(json.load(open('$D/meta.json'))['demo_crate_dir'])")
 git -C /repo worktree add -q --detach "$WT" HEAD || exit 2
@@ -13,12 +14,12 @@ cleanup() { git -C /repo worktree remove --force "$WT" 2>/dev/null; }
 trap cleanup EXIT
 cd "$WT"
 git apply "$D/patch.diff" || { echo "RESULT apply=FAIL"; exit 1; }
-cargo build --workspace --offline --color never >/tmp/vs-build.log 2>&1; b=$?
-cargo nextest run --workspace --no-fail-fast --offline >/tmp/vs-suite.log 2>&1; s=$?
-suite_line=$(grep -E 'Summary' /tmp/vs-suite.log | tail -1)
+cargo build --workspace --offline --color never >/tmp/vs-build-$SLOT.log 2>&1; b=$?
+cargo nextest run --workspace --no-fail-fast --offline >/tmp/vs-suite-$SLOT.log 2>&1; s=$?
+suite_line=$(grep -E 'Summary' /tmp/vs-suite-$SLOT.log | tail -1)
 mkdir -p "$cdir/tests"; cp "$D/demo.rs" "$cdir/tests/verif_demo.rs"
-cargo test -p "$crate" --test verif_demo --offline >/tmp/vs-demo-with.log 2>&1; dw=$?
+cargo test -p "$crate" --test verif_demo --offline >/tmp/vs-demo-with-$SLOT.log 2>&1; dw=$?
 git apply -R "$D/patch.diff"
-cargo test -p "$crate" --test verif_demo --offline >/tmp/vs-demo-without.log 2>&1; dn=$?
+cargo test -p "$crate" --test verif_demo --offline >/tmp/vs-demo-without-$SLOT.log 2>&1; dn=$?
 echo "RESULT build=$b suite=$s ($suite_line) demo_with_change=$dw(expect!=0) demo_without=$dn(expect 0)"
 [ $b -eq 0 ] && [ $s -eq 0 ] && [ $dw -ne 0 ] && [ $dn -eq 0 ]
